@@ -483,10 +483,8 @@ func (f *Flooder) AnnounceLocalRoutes() {
 	localDomainRoutes := f.routeMgr.GetLocalDomainRoutes()
 	localForwardRoutes := f.routeMgr.GetLocalForwardRoutes()
 
-	seq := f.routeMgr.IncrementSequence()
-
-	// Convert to protocol routes (CIDR + domain + forward + agent presence)
-	routes := make([]protocol.Route, 0, len(localRoutes)+len(localDomainRoutes)+len(localForwardRoutes)+1)
+	// Convert to protocol routes (CIDR + domain + forward)
+	routes := make([]protocol.Route, 0, len(localRoutes)+len(localDomainRoutes)+len(localForwardRoutes))
 
 	// Add CIDR routes
 	for _, lr := range localRoutes {
@@ -517,13 +515,14 @@ func (f *Flooder) AnnounceLocalRoutes() {
 		})
 	}
 
-	// Always add agent presence route (makes this agent reachable by ID)
-	routes = append(routes, protocol.Route{
+	// Agent presence route (makes this agent reachable by ID). It is added to
+	// every advertisement below so that each one is complete on its own.
+	presence := protocol.Route{
 		AddressFamily: protocol.AddrFamilyAgent,
 		PrefixLength:  0,
 		Prefix:        protocol.EncodeAgentPrefix(f.localID),
 		Metric:        0,
-	})
+	}
 
 	// Build path data (always plaintext - needed for multi-hop routing)
 	// Note: Path encryption was removed because transit agents need the path
@@ -542,31 +541,80 @@ func (f *Flooder) AnnounceLocalRoutes() {
 		displayName = ""
 	}
 
-	// Build advertisement
-	adv := &protocol.RouteAdvertise{
-		OriginAgent:       f.localID,
-		OriginDisplayName: displayName,
-		Sequence:          seq,
-		Routes:            routes,
-		Path:              path,    // Keep for backwards compat
-		EncPath:           encPath, // Encrypted path for wire format
-		SeenBy:            []identity.AgentID{f.localID},
-	}
+	// A ROUTE_ADVERTISE carries at most 255 routes (one-byte count) and must fit
+	// a frame. A larger route set goes out as several advertisements, each with
+	// its own sequence number; the usual case is a single one.
+	budget := advertiseRouteBudget(displayName) - encodedRouteSize(presence)
+	for _, chunk := range splitRoutes(routes, maxRoutesPerAdvertise-1, budget) {
+		seq := f.routeMgr.IncrementSequence()
 
-	frame := &protocol.Frame{
-		Type:     protocol.FrameRouteAdvertise,
-		StreamID: protocol.ControlStreamID,
-		Payload:  adv.Encode(),
-	}
+		// Build advertisement
+		adv := &protocol.RouteAdvertise{
+			OriginAgent:       f.localID,
+			OriginDisplayName: displayName,
+			Sequence:          seq,
+			Routes:            append(chunk, presence),
+			Path:              path,    // Keep for backwards compat
+			EncPath:           encPath, // Encrypted path for wire format
+			SeenBy:            []identity.AgentID{f.localID},
+		}
 
-	// Send to all peers
-	for _, peerID := range f.sender.GetPeerIDs() {
-		if err := f.sender.SendToPeer(peerID, frame); err != nil {
-			f.logger.Debug("failed to announce local routes",
-				logging.KeyPeerID, peerID.ShortString(),
-				logging.KeyError, err)
+		frame := &protocol.Frame{
+			Type:     protocol.FrameRouteAdvertise,
+			StreamID: protocol.ControlStreamID,
+			Payload:  adv.Encode(),
+		}
+
+		// Send to all peers
+		for _, peerID := range f.sender.GetPeerIDs() {
+			if err := f.sender.SendToPeer(peerID, frame); err != nil {
+				f.logger.Debug("failed to announce local routes",
+					logging.KeyPeerID, peerID.ShortString(),
+					logging.KeyError, err)
+			}
 		}
 	}
+}
+
+// maxRoutesPerAdvertise is the largest number of routes one ROUTE_ADVERTISE can
+// carry: the route count is a single byte on the wire.
+const maxRoutesPerAdvertise = 255
+
+// encodedRouteSize returns the number of payload bytes a route occupies in a
+// ROUTE_ADVERTISE: family(1) + prefixLength(1) + prefix + metric(2).
+func encodedRouteSize(r protocol.Route) int {
+	return 2 + len(r.Prefix) + 2
+}
+
+// advertiseRouteBudget returns how many bytes of encoded routes may go into one
+// ROUTE_ADVERTISE with the given origin display name. Room is left for the
+// path and the seen-by list, which each grow by one agent ID per hop (up to the
+// 255 entries their one-byte counts allow), so that a forwarded copy can never
+// outgrow the frame payload limit.
+func advertiseRouteBudget(displayName string) int {
+	// origin(16) + nameLen(1) + name + seq(8) + routeCount(1) +
+	// path: flag(1) + len(2) + count(1) + seen-by: count(1)
+	fixed := 16 + 1 + len(displayName) + 8 + 1 + 4 + 1
+	growth := 2 * 255 * identity.IDSize
+	return protocol.MaxPayloadSize - fixed - growth
+}
+
+// splitRoutes cuts a route list into consecutive chunks of at most maxCount
+// routes and at most maxBytes encoded bytes each. It always returns at least
+// one chunk (an empty one for an empty list), and never an empty chunk after
+// the first.
+func splitRoutes(routes []protocol.Route, maxCount, maxBytes int) [][]protocol.Route {
+	chunks := make([][]protocol.Route, 0, 1)
+	start, size := 0, 0
+	for i, r := range routes {
+		rs := encodedRouteSize(r)
+		if i > start && (i-start >= maxCount || size+rs > maxBytes) {
+			chunks = append(chunks, routes[start:i:i])
+			start, size = i, 0
+		}
+		size += rs
+	}
+	return append(chunks, routes[start:len(routes):len(routes)])
 }
 
 // WithdrawLocalRoutes floods withdrawal of all local routes.
@@ -671,8 +719,6 @@ func (f *Flooder) SendFullTable(peerID identity.AgentID) {
 
 	// Send a separate advertisement for each origin
 	for originAgent := range allOrigins {
-		seq := f.routeMgr.IncrementSequence()
-
 		cidrRoutes := byOrigin[originAgent]
 		agentPresenceRoutes := agentByOrigin[originAgent]
 		forwardOriginRoutes := forwardByOrigin[originAgent]
@@ -739,25 +785,31 @@ func (f *Flooder) SendFullTable(peerID identity.AgentID) {
 			}
 		}
 
-		adv := &protocol.RouteAdvertise{
-			OriginAgent:       originAgent,
-			OriginDisplayName: originDisplayName,
-			Sequence:          seq,
-			Routes:            routes,
-			Path:              path,
-			SeenBy:            []identity.AgentID{f.localID},
-		}
+		// As in AnnounceLocalRoutes: at most 255 routes and one frame per
+		// advertisement, each with its own sequence number.
+		for _, chunk := range splitRoutes(routes, maxRoutesPerAdvertise, advertiseRouteBudget(originDisplayName)) {
+			seq := f.routeMgr.IncrementSequence()
 
-		frame := &protocol.Frame{
-			Type:     protocol.FrameRouteAdvertise,
-			StreamID: protocol.ControlStreamID,
-			Payload:  adv.Encode(),
-		}
+			adv := &protocol.RouteAdvertise{
+				OriginAgent:       originAgent,
+				OriginDisplayName: originDisplayName,
+				Sequence:          seq,
+				Routes:            chunk,
+				Path:              path,
+				SeenBy:            []identity.AgentID{f.localID},
+			}
 
-		if err := f.sender.SendToPeer(peerID, frame); err != nil {
-			f.logger.Debug("failed to send full routing table",
-				logging.KeyPeerID, peerID.ShortString(),
-				logging.KeyError, err)
+			frame := &protocol.Frame{
+				Type:     protocol.FrameRouteAdvertise,
+				StreamID: protocol.ControlStreamID,
+				Payload:  adv.Encode(),
+			}
+
+			if err := f.sender.SendToPeer(peerID, frame); err != nil {
+				f.logger.Debug("failed to send full routing table",
+					logging.KeyPeerID, peerID.ShortString(),
+					logging.KeyError, err)
+			}
 		}
 	}
 }
